@@ -20,7 +20,7 @@ LEVEL = "fault_enumeration"
 RULE = (
     "per (model, history group): 3 seeded kernels of the model's ISA from the shipped corpus; one *case* = one report of one "
     "kernel produced by a driver process at one step of a cache history (cold / no-cache / warm companion / warm home cache / "
-    "second load in one process / stale internal_version / model edited, reverted, edited in-process / ISA description edited between runs and in-process / model given by path under user-chosen (dotted) file names through the library entry points: cold, warm, edited, reverted / same name other "
+    "second load in one process / stale internal_version / model edited, reverted, edited in-process / model changed in memory only by a cold-loading process / ISA description edited between runs and in-process / model given by path under user-chosen (dotted) file names through the library entry points: cold, warm, edited, reverted / same name other "
     "content in a shared home cache / package-directory cache / cache file cut at 0, 10 bytes, seeded middle, last byte / "
     "writer killed after k bytes (k seeded, four offset classes) / 8 racing cold starts, released together or staggered with "
     "a pre-empted writer, then one more run / 8 racing cold starts on two different models of one directory held at a barrier in "
@@ -83,6 +83,8 @@ def floors(tier):
         "history:same-name-home": n,
         "history:package": n,
         "history:lib-path": 3 * n,
+        "history:in-memory-change": 2 * n,
+        "in_memory_change_applied": 2 * n,
         "history:isa-edited": max(1, n - 2),
         "history:isa-inproc-edit": 2 * max(1, n - 2),
         "lib_warm_hit_confirmed": 2 * n,
@@ -277,7 +279,9 @@ def cold_reference(cx):
         if e["ev"] == "report":
             break
         first.append(e)
-    if sum(1 for e in first if e["ev"] == "get" and e["result"] == "miss") != 2 or sum(1 for e in first if e["ev"] == "dump") != 2:
+    # cold = both model files were looked up and nothing was served from a cache before the first report (when the cache is written is
+    # the implementation's business)
+    if sum(1 for e in first if e["ev"] == "get" and e["result"] == "miss") != 2 or any(e["ev"] == "get" and e["result"] == "hit" for e in first):
         raise RuntimeError("cold reference run was not cold: %s" % first)
     return h, res
 
@@ -672,6 +676,20 @@ def g_content(cx):
         res = cx.run(h, runs=cx.argvs + [{"action": "copy", "src": ed, "dst": yml}] + cx.argvs)
         R.count("history:inproc-edit")
         judge(cx, res, cold + cold_e, "inproc-edit", "edit-between-rounds", variant=start, diff_key="cache/stale-after-edit/in-process")
+    # ---- a process that loads the model cold and changes it in memory only (what-if script), then later runs
+    for where in ("data", "cache"):
+        h = cx.new_home()
+        deny = [] if where == "data" else [cx.data_dir(h)]
+        res = cx.run(h, runs=[{"action": "whatif", "arch": cx.model}], deny=deny)
+        R.count("history:in-memory-change")
+        if any(e["ev"] == "action" and e.get("what") == "whatif" and e.get("changed") for e in res["events"]):
+            R.count("in_memory_change_applied")
+        res = cx.run(h, deny=deny)
+        judge(cx, res, cold, "in-memory-change", "next-run", variant=where, diff_key="cache/in-memory-change-persisted")
+        res = cx.run(h, runs=cx.argvs + [{"action": "whatif", "arch": cx.model}], deny=deny)
+        judge(cx, res, cold, "in-memory-change", "analyses-then-change", variant=where, diff_key="cache/in-memory-change-persisted")
+        res = cx.run(h, deny=deny)
+        judge(cx, res, cold, "in-memory-change", "run-after", variant=where, diff_key="cache/in-memory-change-persisted")
     # ---- the ISA description edited
     isa_edit_histories(cx, cold)
     # ---- a model given by path (library entry points, as tools embedding OSACA use them), file names a user may choose
